@@ -617,8 +617,12 @@ class Process:
         instances. If no parents are known return an empty list.
         """
         parents = []
+        seen = {self.pid}
         proc = self.parent()
-        while proc is not None:
+        # PID reuse can make the recorded parent links cyclic: stop at
+        # the first PID met twice instead of looping forever.
+        while proc is not None and proc.pid not in seen:
+            seen.add(proc.pid)
             parents.append(proc)
             proc = proc.parent()
         return parents
